@@ -188,9 +188,14 @@ func runC13(c *an.Ctx) {
 		ct, cf := c.T(conv), c.F(conv)
 		n := 0
 		for _, r := range cf.Returns() {
-			if ct.ErrShape(errResult(r)) == "nil" {
+			switch sh := ct.ErrShape(errResult(r)); {
+			case sh == "nil":
 				n++
 				c.Check(cf.AtInstr(r).Has(an.EQ("p0", codeOK)), "C13.b", "status-ok-only", "only status OK converts to a nil error (unknown codes are errors)", conv, r, "", cf.AtInstr(r))
+			case strings.HasPrefix(sh, "prop("):
+				// neither nil nor constructed here: the codes looked up in a constant table
+				n++
+				checkStatusTable(c, conv, r, codeOK)
 			}
 		}
 		c.Min("C13.b", "nil returns of convertStatusCodeToError", n, 1)
